@@ -318,6 +318,40 @@ def validate_trace(v, module, cfg, trace_text, label, what, timeout=900, dfs=Fal
     return True, nev, reports, None
 
 
+def ackq_lin(v, trials):
+    """Concurrent callers on one real Ackqueue (Wait that makes a full, wrapped ring grow against Ack / Acked): the recorded
+    call/return histories must be linearizable w.r.t. the AckQueue actions (unlogged linearization points placed by TLC)."""
+    tmp = tempfile.mkdtemp(prefix="verif-aql-")
+    try:
+        tf = os.path.join(tmp, "trace.ndjson")
+        p = core.run_harness(["ackqlin", "-seed", str(core.seed()), "-trials", str(trials), "-out", tf], timeout=900)
+        if p.returncode != 0:
+            raise Infra("ackqlin failed: %s" % p.stderr[-2000:])
+        res = json.loads(p.stdout.strip().splitlines()[-1])
+        v.mismatches(res.get("mismatches"), res.get("counts"))
+        text = open(tf).read()
+    finally:
+        import shutil
+        shutil.rmtree(tmp, ignore_errors=True)
+    lines = text.splitlines()
+    overlaps = sum(1 for i in range(len(lines) - 1) if '"call"' in lines[i] and '"call"' in lines[i + 1])
+    cfg = ACKQ_CFG % dict(ACKQ_TRACE_CONSTS, spec="TraceSpec") + "CONSTRAINT HighWater\nPOSTCONDITION Accepted\n"
+    ok, matched, reports, why = validate_trace(v, "AckQueueLinTrace", cfg, text, "AckQueueLinTrace", "ack queue, concurrent callers", dfs=True, highwater=True)
+    v.cov["parts"]["concurrent-callers"] = {"trials": trials, "events": len(lines), "overlapping_calls": overlaps, "matched_prefix": matched}
+    v.cov["traces_validated_against_impl"] += trials
+    v.cov["evaluations"] += len(lines)
+    if not ok:
+        lo = matched
+        while lo > 0 and '"setup"' not in lines[lo - 1]:
+            lo -= 1
+        v.mismatch({"what": "concurrent callers on one ack queue: the recorded call/return history is not linearizable w.r.t. the AckQueue specification (%s); "
+                            "trial: %s" % (why, " ".join("%s%s(%s)" % (e["ev"][0], e["id"], e["op"] + (str(e["pid"]) if e["pid"] else "") + ("" if not e["out"] else "->" + ",".join(str(o["id"]) for o in e["out"])))
+                                                         for e in map(json.loads, lines[max(lo - 1, 0):matched + 1]))[:900]),
+                    "replay": {"seed": core.seed(), "events": lines[max(lo - 1, 0):matched + 1]}})
+    elif overlaps < trials // 20:
+        v.notes.append("concurrent-callers: only %d overlapping calls in %d trials" % (overlaps, trials))
+
+
 @check("C13")
 def c13(tier):
     v = Verdict("C13", tier)
@@ -362,12 +396,14 @@ def c13(tier):
     elif reports and (reports[-1]["report"]["n"] < 3 or reports[-1]["report"]["wrapped"] < 1):
         raise Infra("recorded traces never grew the ring while wrapped: %s" % reports[-1])
     v.add_samples([json.loads(x) for x in lines[40:46]], 6)
+    ackq_lin(v, 3000 if not thorough else 40000)
     v.cov["rule"] = ("every path up to the stated depth, a transition cover and seeded random walks through the TLC-generated state "
                      "graphs of AckQueue (3 configurations), each Acked() result compared entry by entry (type, state, id, request bytes, "
                      "ack bytes, callback identity; caller buffers overwritten after every call); plus recorded traces of random drivers "
                      "validated by TLC against AckQueueTrace. distinct_nontrivial = graph edges")
     v.cov["exhaustive"] = True
-    v.assumptions += ["one caller at a time per queue (as in the library: the queue has its own mutex)",
+    v.assumptions += ["graph walks and random drivers: one caller at a time per queue; concurrent callers (the application goroutine registers while the processor acknowledges and releases) "
+                      "are covered by recorded call/return histories around ring growth, checked for linearizability by TLC (AckQueueLinTrace)",
                       "expected request/ack bytes are produced with the library's encoder (its fidelity is C03's subject)"]
     return v.finish()
 
